@@ -332,3 +332,20 @@ def assumption(pid, text):
 
 def observation(pid, text):
     OBSERVATIONS.setdefault(pid, []).append(text)
+
+
+# ---- recorded binding order of locals (robustness to renames, see engine.LOCAL_ALIASES) ------------------------------
+_locals_cache = None
+
+
+def recorded_locals(qname):
+    global _locals_cache
+    if _locals_cache is None:
+        import json
+
+        p = os.path.join(os.path.dirname(os.path.dirname(os.path.abspath(__file__))), "baseline", "locals.json")
+        try:
+            _locals_cache = json.load(open(p))
+        except Exception:
+            _locals_cache = {}
+    return _locals_cache.get(qname.split("#")[0])
